@@ -650,6 +650,30 @@ def sf_attr(X: FLOAT[...], alpha: float) -> FLOAT[...]:
     return X * alpha + op.Constant(value_float=alpha)
 
 @script()
+def sf_attr_if(X: FLOAT[...], alpha: float) -> FLOAT[...]:
+    if op.ReduceSum(X) > 0.0:
+        Y = X + op.Constant(value_float=alpha)
+    else:
+        Y = op.Identity(X)
+    return Y
+
+@script()
+def sf_attr_loop(X: FLOAT[...], N: INT64, n: int) -> FLOAT[...]:
+    S = op.Identity(X)
+    for i in range(N):
+        S = S + op.Cast(op.Constant(value_int=n), to=1)
+    return S
+
+@script()
+def sf_attr_both(X: FLOAT[...], alpha: float, label: str) -> FLOAT[...]:
+    T = X * op.Constant(value_float=alpha)
+    if op.ReduceSum(X) > 0.0:
+        Y = T + op.Cast(op.Constant(value_string=label), to=1)
+    else:
+        Y = T - op.Constant(value_float=alpha)
+    return Y
+
+@script()
 def sf_attr_default(X: FLOAT[...], alpha: float = 2.0) -> FLOAT[...]:
     return X * alpha + op.Constant(value_float=alpha)
 '''
@@ -658,7 +682,7 @@ def sf_attr_default(X: FLOAT[...], alpha: float = 2.0) -> FLOAT[...]:
 def script_family_items(ctx):
     """(name, kind, optdict) for the documented round trip script -> ONNX -> script -> ONNX"""
     names = ["sf_if", "sf_if_const", "sf_for", "sf_for_const", "sf_for_two", "sf_while", "sf_break", "sf_nested", "sf_pow", "sf_attr",
-             "sf_attr_default"]
+             "sf_attr_if", "sf_attr_loop", "sf_attr_both", "sf_attr_default"]
     items = []
     for n in names:
         for kind in ("model", "function"):
@@ -672,7 +696,8 @@ def script_family_items(ctx):
     if ctx.quick:
         rng = random.Random(ctx.seed + 1)
         rng.shuffle(items)
-        items = items[:120]
+        keep = [i for i in items if i[0].startswith("sf_attr")]      # cheap and few: all of them
+        items = keep + [i for i in items if not i[0].startswith("sf_attr")][:120]
     return items
 
 
@@ -805,7 +830,9 @@ def script_case(item):
 
             def wrap(p):
                 ins = [h.make_tensor_value_info("X", TP.FLOAT, None)] + ([h.make_tensor_value_info("N", TP.INT64, [])] if len(p.input) > 1 else [])
-                node = h.make_node(p.name, [i.name for i in ins], ["Y"], domain=p.domain, **({"alpha": 3.0} if list(p.attribute) or list(p.attribute_proto) else {}))
+                given = {"alpha": 3.0, "n": 2, "label": "1.5"}
+                names_ = list(p.attribute) + [a.name for a in p.attribute_proto]
+                node = h.make_node(p.name, [i.name for i in ins], ["Y"], domain=p.domain, **{k: given[k] for k in names_})
                 g = h.make_graph([node], "w", ins, [h.make_tensor_value_info("Y", TP.FLOAT, None)])
                 mm = h.make_model(g, opset_imports=[h.make_opsetid("", 18), h.make_opsetid(p.domain, 1)], functions=[p])
                 mm.ir_version = 8
@@ -996,20 +1023,120 @@ def extra_case(item):
         return {"harness_error": f"{type(e).__name__}: {e}\n{traceback.format_exc()[-1200:]}"}
 
 
+# -- attribute parameters of every kind, referenced at top level / inside an If branch / inside a Loop body / both
+ATTR_KINDS = ("float", "int", "string", "ints", "floats", "tensor")
+ATTR_PLACES = ("top", "if", "loop", "both")
+
+
+def attr_function(kind, place):
+    """FunctionProto f(X, C, N) with attribute parameter `alpha` (no default) -> (function, attribute value, in_class)"""
+    onnx, TP, h = _onnx()
+    AP = onnx.AttributeProto
+    F, I, B = TP.FLOAT, TP.INT64, TP.BOOL
+    spec = {
+        "float": ("value_float", AP.FLOAT, 2.5), "int": ("value_int", AP.INT, 3), "string": ("value_string", AP.STRING, "1.5"),
+        "ints": ("value_ints", AP.INTS, [1, -2, 4]), "floats": ("value_floats", AP.FLOATS, [0.5, 1.5]),
+        "tensor": ("value", AP.TENSOR, h.make_tensor("t", F, [2], [1.0, 2.0])),
+    }[kind]
+
+    def val(prefix):      # nodes computing a FLOAT scalar from the attribute parameter
+        c = h.make_node("Constant", [], [prefix + "c"])
+        c.attribute.append(AP(name=spec[0], ref_attr_name="alpha", type=spec[1]))
+        if kind == "float":
+            return [c, h.make_node("Identity", [prefix + "c"], [prefix + "v"])]
+        if kind in ("int", "string"):
+            return [c, h.make_node("Cast", [prefix + "c"], [prefix + "v"], to=F)]
+        if kind == "ints":
+            return [c, h.make_node("Cast", [prefix + "c"], [prefix + "f"], to=F), h.make_node("ReduceSum", [prefix + "f"], [prefix + "v"], keepdims=0)]
+        return [c, h.make_node("ReduceSum", [prefix + "c"], [prefix + "v"], keepdims=0)]
+
+    def vi(n, t):
+        return h.make_tensor_value_info(n, t, [])
+
+    nodes = []
+    src = "X"
+    if place in ("top", "both"):
+        nodes += val("t_") + [h.make_node("Add", ["X", "t_v"], ["w"])]
+        src = "w"
+    if place in ("if", "both"):
+        th = h.make_graph(val("b_") + [h.make_node("Mul", [src, "b_v"], ["yo"])], "thenG", [], [vi("yo", F)])
+        el = h.make_graph([h.make_node("Neg", [src], ["yn"])], "elseG", [], [vi("yn", F)])
+        nodes.append(h.make_node("If", ["C"], ["Y"], then_branch=th, else_branch=el))
+    elif place == "loop":
+        body = h.make_graph(val("l_") + [h.make_node("Add", ["s", "l_v"], ["so"]), h.make_node("Identity", ["ci"], ["co"])], "loopG",
+                            [vi("it", I), vi("ci", B), vi("s", F)], [vi("co", B), vi("so", F)])
+        nodes.append(h.make_node("Loop", ["N", "", src], ["Y"], body=body))
+    else:
+        nodes.append(h.make_node("Identity", [src], ["Y"]))
+    fp = h.make_function(DOMAIN, "fa", ["X", "C", "N"], ["Y"], nodes, [h.make_opsetid("", 18)], attributes=["alpha"])
+    return fp, spec[2], kind != "tensor"      # a TENSOR attribute parameter cannot come from a script function
+
+
+def attr_items(ctx):
+    combos = [0, 1, 4, 7] if ctx.quick else range(8)
+    return [(k, pl, {o: bool(bits >> j & 1) for j, o in enumerate(OPTS)}) for k in ATTR_KINDS for pl in ATTR_PLACES for bits in combos]
+
+
+def attr_case(item):
+    import onnxruntime as ort
+
+    ort.set_default_logger_severity(4)
+    kind, place, opts = item
+    try:
+        onnx, TP, h = _onnx()
+        fp, value, in_class = attr_function(kind, place)
+
+        def wrap(p):
+            ins = [h.make_tensor_value_info("X", TP.FLOAT, []), h.make_tensor_value_info("C", TP.BOOL, []), h.make_tensor_value_info("N", TP.INT64, [])]
+            node = h.make_node(p.name, ["X", "C", "N"], ["Y"], domain=p.domain, alpha=value)
+            g = h.make_graph([node], "w", ins, [h.make_tensor_value_info("Y", TP.FLOAT, [])])
+            m = h.make_model(g, opset_imports=[h.make_opsetid("", 18), h.make_opsetid(p.domain, 1)], functions=[p])
+            m.ir_version = 8
+            return m
+
+        feeds = [{"X": np.array(x, dtype=np.float32), "C": np.array(c), "N": np.array(n, dtype=np.int64)}
+                 for x, c, n in ((1.0, True, 2), (-3.0, False, 0), (2.0, True, 3))]
+        orig = wrap(fp)
+        try:
+            run_model(orig, feeds)
+        except Exception as e:  # noqa: BLE001
+            return {"discard": f"ORT refuses the original: {str(e)[:200]}"}
+        r = round_trip(fp, orig, feeds, opts, main_name="fa", wrap=wrap)
+        if "discard" in r:
+            return r
+        r["in_class"] = in_class
+        r["blame"] = None
+        if r["cls"] != "ok":
+            if kind in ("ints", "floats") and "name 'Sequence' is not defined" in r["msg"]:
+                r["blame"] = "attr_sequence_annotation"
+            else:
+                r["blame"] = symptom_blame("function", opts, structure(fp), r)
+        return r
+    except Exception as e:  # noqa: BLE001
+        import traceback
+
+        return {"harness_error": f"{type(e).__name__}: {e}\n{traceback.format_exc()[-1200:]}"}
+
+
 def run_extra_families(ctx):
     sitems = script_family_items(ctx)
     xitems = extra_items(ctx)
     script_module()          # imported once, before the workers are forked
     _EXTRA[0] = {l: (inc, m, f) for l, inc, m, f in extra_models()}
+    aitems = attr_items(ctx)
     sres = core.pmap(script_case, sitems, chunksize=2)
     xres = core.pmap(extra_case, xitems, chunksize=4)
+    ares = core.pmap(attr_case, aitems, chunksize=2)
     n = 0
-    for fam, items, results in (("script", sitems, sres), ("extra", xitems, xres)):
+    discards = {"attr": 0}
+    for fam, items, results in (("script", sitems, sres), ("extra", xitems, xres), ("attr", aitems, ares)):
         for it, r in zip(items, results):
             if "harness_error" in r:
                 raise core.MachineryError(f"harness failed on {fam} {it}: {r['harness_error']}")
             if "discard" in r:
                 ctx.add("discarded_original_not_runnable")
+                if fam == "attr":
+                    discards["attr"] += 1
                 continue
             ctx.add("evaluations")
             n += 1
@@ -1019,8 +1146,10 @@ def run_extra_families(ctx):
             in_class = r.get("in_class", True)
             if r["cls"] == "ok" or (not in_class and r["cls"] == "raise"):
                 continue
-            ctx.report({"family": fam, "item": [it[0], it[1]] if fam == "script" else [it[0]], "options": opts},
+            ctx.report({"family": fam, "item": [it[0], it[1]] if fam in ("script", "attr") else [it[0]], "options": opts},
                        f"{fam} {label} options={otxt}: round trip is {r['cls']} at {r['stage']}: {r['msg']}", finding=r.get("blame"))
+    if discards["attr"] > len(aitems) // 4:
+        raise core.MachineryError(f"{discards['attr']} of {len(aitems)} attribute-parameter functions are refused by ORT")
     ctx.set("extra_family_evaluations", n)
 
 
@@ -1053,6 +1182,8 @@ def replay(ctx, path):
         return 0 if r.get("cls") == "ok" else 1
     if case.get("family") == "script":
         r = script_case((case["item"][0], case["item"][1], case["options"]))
+    elif case.get("family") == "attr":
+        r = attr_case((case["item"][0], case["item"][1], case["options"]))
     else:
         r = extra_case((case["item"][0], case["options"]))
     print(json.dumps({"case": case, "now": r}, indent=1, default=str))
